@@ -97,9 +97,15 @@ class Report:
             self.checker_error(f'{name}: no feasible path reaches an outcome (contradictory requires?)')
 
     # -- violations -----------------------------------------------------------------------------------------------
+    @staticmethod
+    def _matches(k, key):
+        if k.get('key_re'):
+            return re.search(k['key_re'], key) is not None
+        return bool(k.get('key')) and key.startswith(k['key'])
+
     def violation(self, key, what, replay, replayed=True):
         for k in self.known:
-            if k.get('status') == 'known' and key.startswith(k.get('key')):
+            if k.get('status') == 'known' and self._matches(k, key):
                 self.known_hits.append((k, what))
                 self.known_obligation_names.add(key)
                 return
@@ -107,7 +113,7 @@ class Report:
 
     def known_finding_observed(self, key, what):
         for k in self.known:
-            if k.get('status') == 'known' and k.get('key') == key:
+            if k.get('status') == 'known' and self._matches(k, key):
                 self.known_hits.append((k, what))
                 return True
         return False
@@ -117,7 +123,13 @@ class Report:
         """section: dict(name, scope, evaluations, distinct_nontrivial, rule, samples, exhaustive, failures[])"""
         self.bounded_sections.append(section)
         for f in section.get('failures', []):
-            self.violation(f['key'], f['what'], f.get('replay', f), replayed=True)
+            rep = dict(f)
+            if section.get('native_entry'):
+                rep['native_entry'] = section['native_entry']
+                rep['native_payload'] = {'replay': f}
+            self.violation(f['key'], f['what'], rep, replayed=True)
+        for e in section.get('harness_errors', [])[:5]:
+            self.checker_error('bounded harness: ' + e[:600])
 
     # -- finish ---------------------------------------------------------------------------------------------------
     def _replay_path(self, key):
@@ -181,9 +193,10 @@ class Report:
         nviol = len(self.violations)
         shown = set()
         for k, what in self.known_hits:
-            if k['key'] in shown:
+            kid = k.get('id') or k.get('key') or k.get('key_re')
+            if kid in shown:
                 continue
-            shown.add(k['key'])
+            shown.add(kid)
             lines.append(f'KNOWN-FINDING: property={self.prop} {k.get("what", what)}')
         for u in self.undecided_list[:20]:
             lines.append(f'UNDECIDED property={self.prop} obligation={u["obligation"]} reason={u["reason"]}')
@@ -247,7 +260,7 @@ class Report:
             'rule': ' | '.join(f"{b['name']}: {b.get('rule', '')}" for b in self.bounded_sections),
             'samples': (self.samples + bsamples) or [{'note': 'no sample recorded'}],
             'undecided_remainder': self.remainder,
-            'known_findings_observed': [k['key'] for k, _ in self.known_hits],
+            'known_findings_observed': sorted({k.get('id') or k.get('key') or k.get('key_re') for k, _ in self.known_hits}),
             'exhaustive': all(b.get('exhaustive', False) for b in self.bounded_sections) if self.bounded_sections
             else False,
         }
